@@ -23,6 +23,71 @@ func init() {
 		ruleV6(c, "C11.V6")
 		ruleV7(c, "C11.V7")
 		ruleV8(c, "C11.V8")
+		ruleV9(c, "C11.V9")
+		ruleL2(c, "C11.V10")
+		ruleL4(c, "C11.V11")
+	}
+}
+
+// ruleV9: a client cookie is used as a byte offset into the directory; it
+// must be entry-aligned before the scan decodes entries at it.
+func ruleV9(c *Ctx, id string) {
+	P, R := c.P, c.R
+	R.Rule(id, "directory cookies are validated: every handler that passes the request's cookie to a directory scan is dominated by a test that the cookie is a multiple of the entry size", 2)
+	direntsz := constOfPkg(P, "dir", "DIRENTSZ")
+	n := 0
+	for _, h := range c.V.NfsProcs {
+		for _, b := range h.Blocks {
+			for _, in := range b.Instrs {
+				call, ok := in.(*ssa.Call)
+				if !ok || call.Call.StaticCallee() == nil || !IsRepoFunc(call.Call.StaticCallee()) {
+					continue
+				}
+				var cookie ssa.Value
+				for _, a := range call.Call.Args {
+					if _, path := paramFieldPath(a); path == "Cookie" {
+						cookie = a
+					}
+				}
+				if cookie == nil {
+					continue
+				}
+				n++
+				g := guardedBy(h, call.Block(), func(cd Cond) (bool, bool) {
+					if cd.X == nil || cd.Y == nil {
+						return false, false
+					}
+					rem, ok := stripConv(cd.X).(*ssa.BinOp)
+					if !ok || rem.Op != token.REM {
+						return false, false
+					}
+					k, isk := constInt(stripConv(rem.Y))
+					z, isz := constInt(stripConv(cd.Y))
+					if !isk || k != direntsz || !isz || z != 0 {
+						return false, false
+					}
+					if _, path := paramFieldPath(rem.X); path != "Cookie" {
+						if cv, ok := rem.X.(*ssa.Convert); !ok {
+							return false, false
+						} else if _, p2 := paramFieldPath(cv.X); p2 != "Cookie" {
+							return false, false
+						}
+					}
+					if cd.Op == token.NEQ {
+						return true, false
+					}
+					if cd.Op == token.EQL {
+						return true, true
+					}
+					return false, false
+				})
+				R.Analysed[FuncName(h)] = true
+				R.Check(g, id, h.Name()+"|cookie entry-aligned", P.Pos(call.Pos()), "the scan starts only at a cookie that is a multiple of DIRENTSZ", "guard dominates", "a cookie such as 1 makes the scan decode bytes straddling two entries: the garbage name length panics the decoder with the directory lock held")
+			}
+		}
+	}
+	if n == 0 {
+		R.Fail(id, "cookie uses", "?", "READDIR and READDIRPLUS pass the cookie to a scan", "no such call found")
 	}
 }
 
